@@ -46,7 +46,7 @@ package stat
 // order statistic; with non-negative weights (or none) both kinds lie within
 // the data range
 //@ ensures [real] c == Empirical && weights == nil ==> exists(k, 0, len(x), result == x[k] && float64(k+1) >= p*float64(len(x)) && (k == 0 || float64(k) < p*float64(len(x))))
-//@ ensures [real] weights == nil || forall(k, 0, len(x), weights[k] >= 0) ==> x[0] <= result && result <= x[len(x)-1]
+//@ ensures [realx] weights == nil || forall(k, 0, len(x), weights[k] >= 0) ==> x[0] <= result && result <= x[len(x)-1]
 
 //@ func CDF props: C10
 //@ floats: ieee
@@ -69,3 +69,299 @@ package stat
 //@ hyp float64(k+1) >= p*float64(n)
 //@ hyp r >= float64(k+1)/float64(n)
 //@ goal r >= p
+
+// ---- means -------------------------------------------------------------------------
+
+// Mean: panics exactly on a weights length mismatch; in exact arithmetic the result is
+// sum(x)/n without weights and sum(w*x)/sum(w) with weights (f64.fsum, f64.dotp are
+// the defining sums).
+//@ func Mean props: C10
+//@ valid weights == nil || len(x) == len(weights)
+//@ panics iff !valid, before-writes
+//@ writes nothing
+//@ ensures [real] weights == nil && len(x) > 0 ==> result == f64.fsum(x, len(x)) / float64(len(x))
+//@ ensures [real] weights != nil && f64.fsum(weights, len(weights)) != 0 ==> result == f64.dotp(x, weights, len(x), 0, 1, 0, 1) / f64.fsum(weights, len(weights))
+//@ loop 1: invariant [real] sumValues == f64.dotp(x, weights, it, 0, 1, 0, 1)
+//@ invariant [real] sumWeights == f64.fsum(weights, it)
+
+// GeometricMean, HarmonicMean, CircularMean go through log/exp/sin/cos: only totality
+// (documented panic on a weights length mismatch, no index fault, inputs not written).
+//@ func GeometricMean CircularMean props: C10
+//@ valid weights == nil || len(x) == len(weights)
+//@ panics iff !valid, before-writes
+//@ writes nothing
+
+// ---- distances between distributions -------------------------------------------------
+
+// chisq: the defining sum of ChiSquare over the first n cells; a cell with obs == exp == 0
+// contributes nothing.
+//@ spec rec chisq(o []float64, e []float64, n int) float64 decreases n =
+//@      ite(n <= 0, 0, chisq(o, e, n-1) + ite(o[n-1] == 0 && e[n-1] == 0, 0, (o[n-1]-e[n-1])*(o[n-1]-e[n-1])/e[n-1]))
+
+//@ func ChiSquare props: C10
+//@ valid len(obs) == len(exp)
+//@ panics iff !valid, before-writes
+//@ writes nothing
+//@ ensures [real] result == chisq(obs, exp, len(obs))
+//@ loop 1: invariant [real] result == chisq(obs, exp, it)
+
+//@ func Bhattacharyya Hellinger KullbackLeibler CrossEntropy JensenShannon props: C10
+//@ valid len(p) == len(q)
+//@ panics iff !valid, before-writes
+//@ writes nothing
+
+//@ func Entropy props: C10
+//@ writes nothing
+
+// ---- variance family -----------------------------------------------------------------
+
+// sqdev, wsqdev: the (weighted) sum of squared deviations of the first n elements from m.
+//@ spec rec sqdev(x []float64, m float64, n int) float64 decreases n = ite(n <= 0, 0, sqdev(x, m, n-1) + (x[n-1]-m)*(x[n-1]-m))
+//@ spec rec wsqdev(x []float64, w []float64, m float64, n int) float64 decreases n = ite(n <= 0, 0, wsqdev(x, w, m, n-1) + w[n-1]*(x[n-1]-m)*(x[n-1]-m))
+//@ spec amean(x []float64) float64 = f64.fsum(x, len(x)) / float64(len(x))
+//@ spec wmean(x []float64, w []float64) float64 = f64.dotp(x, w, len(x), 0, 1, 0, 1) / f64.fsum(w, len(w))
+
+// The corrected two-pass algorithm: in exact arithmetic the compensation term vanishes
+// (it is sum(x) - n*mean, resp. sum(w*x) - sum(w)*mean), so the unnormalised variance is
+// the sum of squared deviations from the mean.
+//@ func meanUnnormalisedVarianceSumWeights props: C10
+//@ option delegate-panics
+//@ valid weights == nil || len(x) == len(weights)
+//@ panics iff !valid, before-writes
+//@ writes nothing
+//@ ensures [real] weights == nil && len(x) > 0 ==> mean == amean(x) && unnormalisedVariance == sqdev(x, amean(x), len(x)) && sumWeights == float64(len(x))
+//@ ensures [real] weights != nil && f64.fsum(weights, len(weights)) != 0 ==> mean == wmean(x, weights) && unnormalisedVariance == wsqdev(x, weights, wmean(x, weights), len(x)) && sumWeights == f64.fsum(weights, len(weights))
+//@ loop 1: invariant [real] ss == sqdev(x, mean, it)
+//@ invariant [real] compensation == f64.fsum(x, it) - float64(it)*mean
+//@ loop 2: invariant [real] ss == wsqdev(x, weights, mean, it)
+//@ invariant [real] compensation == f64.dotp(x, weights, it, 0, 1, 0, 1) - f64.fsum(weights, it)*mean
+//@ invariant [real] sumWeights == f64.fsum(weights, it)
+
+// MeanVariance, Variance: mean and sum of squared deviations / (sum of weights - 1);
+// PopMeanVariance, PopVariance: ... / sum of weights.
+//@ func MeanVariance props: C10
+//@ option delegate-panics
+//@ valid weights == nil || len(x) == len(weights)
+//@ panics iff !valid, before-writes
+//@ writes nothing
+//@ ensures [real] weights == nil && len(x) > 1 ==> mean == amean(x) && variance == sqdev(x, amean(x), len(x)) / float64(len(x)-1)
+//@ ensures [real] weights != nil && f64.fsum(weights, len(weights)) != 0 && f64.fsum(weights, len(weights)) != 1 ==> mean == wmean(x, weights) && variance == wsqdev(x, weights, wmean(x, weights), len(x)) / (f64.fsum(weights, len(weights)) - 1)
+
+//@ func Variance props: C10
+//@ option delegate-panics
+//@ valid weights == nil || len(x) == len(weights)
+//@ panics iff !valid, before-writes
+//@ writes nothing
+//@ ensures [real] weights == nil && len(x) > 1 ==> result == sqdev(x, amean(x), len(x)) / float64(len(x)-1)
+//@ ensures [real] weights != nil && f64.fsum(weights, len(weights)) != 0 && f64.fsum(weights, len(weights)) != 1 ==> result == wsqdev(x, weights, wmean(x, weights), len(x)) / (f64.fsum(weights, len(weights)) - 1)
+
+//@ func PopMeanVariance props: C10
+//@ option delegate-panics
+//@ valid weights == nil || len(x) == len(weights)
+//@ panics iff !valid, before-writes
+//@ writes nothing
+//@ ensures [real] weights == nil && len(x) > 0 ==> mean == amean(x) && variance == sqdev(x, amean(x), len(x)) / float64(len(x))
+//@ ensures [real] weights != nil && f64.fsum(weights, len(weights)) != 0 ==> mean == wmean(x, weights) && variance == wsqdev(x, weights, wmean(x, weights), len(x)) / f64.fsum(weights, len(weights))
+
+//@ func PopVariance props: C10
+//@ option delegate-panics
+//@ valid weights == nil || len(x) == len(weights)
+//@ panics iff !valid, before-writes
+//@ writes nothing
+//@ ensures [real] weights == nil && len(x) > 0 ==> result == sqdev(x, amean(x), len(x)) / float64(len(x))
+//@ ensures [real] weights != nil && f64.fsum(weights, len(weights)) != 0 ==> result == wsqdev(x, weights, wmean(x, weights), len(x)) / f64.fsum(weights, len(weights))
+
+// standard deviations: the non-negative square root of the variance (where that is non-negative)
+//@ func MeanStdDev props: C10
+//@ option delegate-panics
+//@ valid weights == nil || len(x) == len(weights)
+//@ panics iff !valid, before-writes
+//@ writes nothing
+//@ ensures [real] weights == nil && len(x) > 1 && sqdev(x, amean(x), len(x)) >= 0 ==> mean == amean(x) && std >= 0 && std*std == sqdev(x, amean(x), len(x)) / float64(len(x)-1)
+
+//@ func StdDev props: C10
+//@ option delegate-panics
+//@ valid weights == nil || len(x) == len(weights)
+//@ panics iff !valid, before-writes
+//@ writes nothing
+//@ ensures [real] weights == nil && len(x) > 1 && sqdev(x, amean(x), len(x)) >= 0 ==> result >= 0 && result*result == sqdev(x, amean(x), len(x)) / float64(len(x)-1)
+
+//@ func PopMeanStdDev props: C10
+//@ option delegate-panics
+//@ valid weights == nil || len(x) == len(weights)
+//@ panics iff !valid, before-writes
+//@ writes nothing
+//@ ensures [real] weights == nil && len(x) > 0 && sqdev(x, amean(x), len(x)) >= 0 ==> mean == amean(x) && std >= 0 && std*std == sqdev(x, amean(x), len(x)) / float64(len(x))
+
+//@ func PopStdDev props: C10
+//@ option delegate-panics
+//@ valid weights == nil || len(x) == len(weights)
+//@ panics iff !valid, before-writes
+//@ writes nothing
+//@ ensures [real] weights == nil && len(x) > 0 && sqdev(x, amean(x), len(x)) >= 0 ==> result >= 0 && result*result == sqdev(x, amean(x), len(x)) / float64(len(x))
+
+// pure formulas
+//@ func StdScore props: C10
+//@ writes nothing
+//@ ensures [real] result == (x - mean) / std
+
+//@ func StdErr props: C10
+//@ writes nothing
+//@ ensures [real] sampleSize > 0 ==> result*result*sampleSize == std*std
+
+// ---- covariance, correlation, regression ------------------------------------------------
+
+// codev, wcodev: the (weighted) sum of products of deviations of the first n pairs from (mx, my).
+//@ spec rec codev(x []float64, y []float64, mx float64, my float64, n int) float64 decreases n =
+//@      ite(n <= 0, 0, codev(x, y, mx, my, n-1) + (x[n-1]-mx)*(y[n-1]-my))
+//@ spec rec wcodev(x []float64, y []float64, w []float64, mx float64, my float64, n int) float64 decreases n =
+//@      ite(n <= 0, 0, wcodev(x, y, w, mx, my, n-1) + w[n-1]*(x[n-1]-mx)*(y[n-1]-my))
+
+// covarianceMeans (helper of Covariance and LinearRegression, lengths already checked): the
+// corrected two-pass formula with the given means, in exact arithmetic.
+//@ func covarianceMeans props: C10
+//@ requires len(x) == len(y) && (weights == nil || len(weights) == len(x))
+//@ writes nothing
+//@ ensures [real] weights == nil && len(x) > 0 ==> result == (codev(x, y, xu, yu, len(x)) - (f64.fsum(x, len(x)) - float64(len(x))*xu)*(f64.fsum(y, len(x)) - float64(len(x))*yu)/float64(len(x))) / float64(len(x)-1)
+//@ ensures [real] weights != nil ==> result == (wcodev(x, y, weights, xu, yu, len(x)) - (f64.dotp(x, weights, len(x), 0, 1, 0, 1) - f64.fsum(weights, len(x))*xu)*(f64.dotp(y, weights, len(x), 0, 1, 0, 1) - f64.fsum(weights, len(x))*yu)/f64.fsum(weights, len(x))) / (f64.fsum(weights, len(x)) - 1)
+//@ loop 1: invariant [real] ss == codev(x, y, xu, yu, it)
+//@ invariant [real] xcompensation == f64.fsum(x, it) - float64(it)*xu
+//@ invariant [real] ycompensation == f64.fsum(y, it) - float64(it)*yu
+//@ loop 2: invariant [real] ss == wcodev(x, y, weights, xu, yu, it)
+//@ invariant [real] xcompensation == f64.dotp(x, weights, it, 0, 1, 0, 1) - f64.fsum(weights, it)*xu
+//@ invariant [real] ycompensation == f64.dotp(y, weights, it, 0, 1, 0, 1) - f64.fsum(weights, it)*yu
+//@ invariant [real] sumWeights == f64.fsum(weights, it)
+
+// Covariance: sum of products of deviations from the means / (sum of weights - 1).
+//@ func Covariance props: C10
+//@ option delegate-panics
+//@ valid len(x) == len(y) && (weights == nil || len(x) == len(weights))
+//@ panics iff !valid, before-writes
+//@ writes nothing
+//@ ensures [real] weights == nil && len(x) > 1 ==> result == codev(x, y, amean(x), amean(y), len(x)) / float64(len(x)-1)
+//@ ensures [real] weights != nil && f64.fsum(weights, len(weights)) != 0 && f64.fsum(weights, len(weights)) != 1 ==> result == wcodev(x, y, weights, wmean(x, weights), wmean(y, weights), len(x)) / (f64.fsum(weights, len(weights)) - 1)
+
+// Kendall: the missing len(weights) check was repaired ("fix: Kendall rejects a weights slice
+// whose length differs from the data"); with it the documented length panic is the only one and
+// no element of weights is read out of range.
+//@ func Kendall props: C10
+//@ valid len(x) == len(y) && (weights == nil || len(x) == len(weights))
+//@ panics iff !valid, before-writes
+//@ writes nothing
+
+//@ func Correlation props: C10
+//@ option delegate-panics
+//@ valid len(x) == len(y) && (weights == nil || len(x) == len(weights))
+//@ panics iff !valid, before-writes
+//@ writes nothing
+
+//@ func LinearRegression props: C10
+//@ option delegate-panics
+//@ valid len(x) == len(y) && (weights == nil || len(x) == len(weights))
+//@ panics iff !valid, before-writes
+//@ writes nothing
+
+//@ func RSquared RNoughtSquared props: C10
+//@ option delegate-panics
+//@ valid len(x) == len(y) && (weights == nil || len(x) == len(weights))
+//@ panics iff !valid, before-writes
+//@ writes nothing
+
+//@ func RSquaredFrom props: C10
+//@ option delegate-panics
+//@ valid len(estimates) == len(values) && (weights == nil || len(values) == len(weights))
+//@ panics iff !valid, before-writes
+//@ writes nothing
+
+// ---- moments ------------------------------------------------------------------------------
+
+//@ func Moment MomentAbout Skew ExKurtosis props: C10
+//@ option delegate-panics
+//@ valid weights == nil || len(x) == len(weights)
+//@ panics iff !valid, before-writes
+//@ writes nothing
+
+//@ func BivariateMoment props: C10
+//@ option delegate-panics
+//@ valid len(x) == len(y) && (weights == nil || len(x) == len(weights))
+//@ panics iff !valid, before-writes
+//@ writes nothing
+
+// Mode: not under contract (engine: the loops that fill the local map havoc the whole
+// map heap, the modifies obligation for caller-visible maps then fails).
+
+// ---- Kolmogorov-Smirnov ---------------------------------------------------------------------
+
+// updateKS (helper): advances over a run of equal values; the returned index is past idx and at
+// most len(values), the returned value is the element at the new index (the last element at the end).
+//@ func updateKS props: C10
+//@ floats: ieee
+//@ requires 0 <= idx && idx < len(values) && (isNil || len(weights) == len(values))
+//@ writes nothing
+//@ ensures idx < newIdx && newIdx <= len(values)
+//@ ensures newIdx < len(values) ==> same(val, values[newIdx])
+//@ ensures newIdx == len(values) ==> same(val, values[len(values)-1])
+//@ loop 1: invariant idx < newIdx && newIdx <= len(values)
+
+// KolmogorovSmirnov: panics exactly on a weights length mismatch or, for two non-empty
+// NaN-free samples, when one of them is not sorted; no index fault for any pair of lengths;
+// the documented special cases for empty samples.
+//@ func KolmogorovSmirnov props: C10
+//@ floats: ieee
+//@ valid (xWeights == nil || len(x) == len(xWeights)) && (yWeights == nil || len(y) == len(yWeights)) && (len(x) == 0 || len(y) == 0 || hasNaN(x) || hasNaN(y) || (sortedFloats(x) && sortedFloats(y)))
+//@ panics iff !valid, before-writes
+//@ writes nothing
+//@ ensures len(x) == 0 && len(y) == 0 ==> result == 0
+//@ ensures (len(x) == 0) != (len(y) == 0) ==> result == 1
+//@ loop 1: invariant 0 <= xIdx && xIdx < len(x) && 0 <= yIdx && yIdx < len(y)
+//@ invariant same(xVal, x[xIdx])
+//@ invariant same(yVal, y[yIdx])
+
+// FINDING: HarmonicMean of an empty sample panics inside floats.LogSumExp ("floats: zero
+// slice length"), which its documentation does not mention (Mean and GeometricMean return
+// NaN there). The block below fails panic.none[panic(floats.LogSumExp)] and is left out.
+// func HarmonicMean props: C10
+// option delegate-panics
+// valid weights == nil || len(x) == len(weights)
+// panics iff !valid, before-writes
+// writes nothing
+
+// SortWeighted, SortWeightedLabeled: outside the subset (call to sort.Sort: no contract and no body).
+
+// ---- Histogram ----------------------------------------------------------------------------
+
+// psum: the sum of the first n bins (depends on c[0..n) only).
+//@ spec rec psum(c []float64, n int) float64 reads c[0..n] decreases n = ite(n <= 0, 0, psum(c, n-1) + c[n-1])
+
+// Histogram (both paths; the nil-weights search loop and the divider-count check were repaired,
+// see the "fix:" commits). count is zeroed before the two x-range panics (so no "before-writes").
+// Opaque float comparisons: the x-range conditions of valid are the negated comparisons of the bin
+// rule dividers[0] <= x, x < dividers[last] (the same thing for NaN-free data). With floats: ieee
+// and the conditions written positively the obligations need 50 s and more of solver time each.
+//
+// What it states: the documented panics exactly when specified; only count is written; the result
+// has len(dividers)-1 bins and is count when count != nil; no index fault; in exact arithmetic the
+// total weight is conserved: some bin m has psum(result, m) + result[m] == the number of samples
+// (sum(weights) with weights) and every bin after m is 0 (all bins are 0 for empty x). The
+// conservation clause and its invariants are decided in the thorough tier only ([realx]: 60-150 s
+// of solver time, undecided within the quick limits when the machine is busy).
+//@ func Histogram props: C10
+//@ requires count == nil || (count.rid != x.rid && count.rid != dividers.rid && count.rid != weights.rid)
+//@ valid (weights == nil || len(x) == len(weights)) && len(dividers) >= 2 && (count == nil || len(count) == len(dividers)-1) && sortedFloats(dividers) && sortedFloats(x) && (len(x) == 0 || (!(x[0] < dividers[0]) && !(dividers[len(dividers)-1] <= x[len(x)-1])))
+//@ panics iff !valid
+//@ writes count[k] for k in 0..len(count)
+//@ ensures len(result) == len(dividers)-1
+//@ ensures count != nil ==> sameSlice(result, count)
+//@ loop 2: invariant 0 <= idx && idx < len(count)
+//@ loop 3: invariant idx < j
+//@ loop 4: invariant 0 <= idx && idx < len(count)
+//@ loop 5: invariant idx < j
+//@ ensures [real] len(x) == 0 ==> forall(k, 0, len(result), result[k] == 0)
+//@ ensures [realx] len(x) > 0 ==> exists(m, 0, len(result), psum(result, m) + result[m] == ite(weights == nil, float64(len(x)), f64.fsum(weights, len(x))) && forall(k, m+1, len(result), result[k] == 0))
+//@ loop 1: invariant [real] forall(k, 0, it, count[k] == 0)
+//@ loop 2: invariant [realx] psum(count, idx) + count[idx] == float64(it)
+//@ invariant [realx] forall(k, idx+1, len(count), count[k] == 0)
+//@ loop 3: invariant [realx] psum(count, j) == psum(count, idx) + count[idx]
+//@ loop 4: invariant [realx] psum(count, idx) + count[idx] == f64.fsum(weights, it)
+//@ invariant [realx] forall(k, idx+1, len(count), count[k] == 0)
+//@ loop 5: invariant [realx] psum(count, j) == psum(count, idx) + count[idx]
